@@ -260,6 +260,10 @@ func (p LedgerChannelProposalMsg) Valid() error {
 	if p.Participant == nil {
 		return errors.New("invalid nil participant")
 	}
+	// (A decoded message never has a nil map, but it may have an empty one.)
+	if len(p.Participant) == 0 {
+		return errors.New("invalid participant: no address")
+	}
 	return nil
 }
 
